@@ -6,7 +6,8 @@
    the tower non-residue is a non-square) are explicit; the Examples at the end prove all
    of them for GF(13) / GF(7), so no statement is vacuous. *)
 From Coq Require Import ZArith List Bool Field.
-From V Require Import C11.SqrtModel C11.SqrtProofs C11.QuadProofs C11.TowerProofs C11.SmallFields.
+From V Require Import Base.Word C15.BigIntModel C11.SqrtModel C11.SqrtProofs C11.QuadProofs C11.TowerProofs C11.SmallFields
+  C11.ConstModel C11.ConstProofs.
 Open Scope Z_scope.
 
 (* ---------- soundness: a reported root squares to x (every variant, no hypotheses on the constants) ---------- *)
@@ -234,6 +235,58 @@ Theorem C11_xs_from_y :
       (sub a (mul (mul y y) d) = zero \/
        forall x, add (mul a (mul x x)) (mul y y) <> add one (mul (mul d (mul x x)) (mul y y)))).
 Proof. exact (@xs_from_y_spec). Qed.
+
+(* ---------- the precomputed constants: limb-level computation = integer definition, for EVERY limb count and
+   limb pattern (p : any list of 64-bit limbs, little endian).  MODULUS_PLUS_ONE_DIV_FOUR is computed by
+   const_add_with_carry(MODULUS, 1), divide_by_2_round_down, re-inserting the carry-out as the top bit, and
+   divide_by_2_round_down again; the theorem includes the case MODULUS + 1 = 2^(64N) where the sum wraps to 0.
+   `4 * val r - 1 = val p` is the premise shape of C11_case3mod4_exact (field with 4m - 1 elements, exponent m). ---------- *)
+Theorem C11_modulus_plus_one_div_four_spec :
+  forall p : list Z, wf p -> val p mod 4 = 3 ->
+  exists r, modulus_plus_one_div_four p = Some r /\ wf r /\ length r = length p /\
+            val r = (val p + 1) / 4 /\ 4 * val r - 1 = val p.
+Proof. exact modulus_plus_one_div_four_spec. Qed.
+
+Theorem C11_modulus_plus_one_div_four_none :
+  forall p : list Z, wf p -> val p mod 4 <> 3 -> modulus_plus_one_div_four p = None.
+Proof. exact modulus_plus_one_div_four_none. Qed.
+
+(* TWO_ADICITY / TRACE / TRACE_MINUS_ONE_DIV_TWO / MODULUS_MINUS_ONE_DIV_TWO from the limbs of an odd modulus > 1:
+   p - 1 = 2^s (2 tm + 1) is the premise shape of C11_tonelli_shanks_exact, (p-1)/2 = 2^(s-1) (2 tm + 1) the
+   exponent of C11_legendre_euler *)
+Theorem C11_two_adic_constants_spec :
+  forall p : list Z, wf p -> val p mod 2 = 1 -> 1 < val p ->
+  exists s t tm, two_adicity p = Some s /\ trace p = Some t /\ trace_minus_one_div_two p = Some tm /\
+    wf t /\ wf tm /\ 1 <= s /\ val t mod 2 = 1 /\ val t = 2 * val tm + 1 /\ 0 <= val tm /\
+    val p - 1 = 2 ^ s * (2 * val tm + 1) /\
+    val (modulus_minus_one_div_two p) = (val p - 1) / 2 /\
+    val (modulus_minus_one_div_two p) = 2 ^ (s - 1) * (2 * val tm + 1).
+Proof. exact two_adic_constants_spec. Qed.
+
+(* what run_C11 (op precomp_ok) compares with the SQRT_PRECOMP of the compiled configuration *)
+Theorem C11_sqrt_precomp_of_modulus_3mod4 :
+  forall (powm : Z -> Z -> Z) (p g : Z), 1 < p -> p mod 4 = 3 ->
+  sqrt_precomp_of_modulus powm p g = Some [1; (p + 1) / 4].
+Proof. exact sqrt_precomp_of_modulus_3mod4. Qed.
+
+Theorem C11_sqrt_precomp_of_modulus_1mod4 :
+  forall (powm : Z -> Z -> Z) (p g : Z), 1 < p -> p mod 4 = 1 ->
+  exists s tm, sqrt_precomp_of_modulus powm p g = Some [2; s; powm g (2 * tm + 1); tm] /\
+               1 <= s /\ 0 <= tm /\ p - 1 = 2 ^ s * (2 * tm + 1).
+Proof. exact sqrt_precomp_of_modulus_1mod4. Qed.
+
+(* satisfiable, including the wrap-around: the (non-prime) all-ones 2-limb value 2^128 - 1 gives 2^126; the
+   Mersenne prime 2^127 - 1 (low limb all ones) gives 2^125; 3 limbs all ones below a non-trivial top limb *)
+Example C11_ex_mp1d4_wrap :
+  modulus_plus_one_div_four [18446744073709551615; 18446744073709551615] = Some [0; 4611686018427387904] /\
+  modulus_plus_one_div_four [18446744073709551615; 9223372036854775807] = Some [0; 2305843009213693952] /\
+  modulus_plus_one_div_four [18446744073709551615; 18446744073709551615; 18446744073709551615; 5] = Some [0; 0; 9223372036854775808; 1] /\
+  modulus_plus_one_div_four [18446744073709551613; 7] = None.
+Proof. vm_compute. repeat split; reflexivity. Qed.
+Example C11_ex_two_adic_goldilocks :
+  two_adicity [18446744069414584321] = Some 32 /\ trace [18446744069414584321] = Some [4294967295] /\
+  trace_minus_one_div_two [18446744069414584321] = Some [2147483647].
+Proof. vm_compute. repeat split; reflexivity. Qed.
 
 (* ---------- non-vacuity: every premise above holds for GF(13) (s = 2, tm = 1, z = 8, tower nr = 2)
    and GF(7) (m = 2, tower nr = -1) ---------- *)
